@@ -250,7 +250,19 @@ def ob_chrom_tree_w(ctx, res):
         res.fail("chromTree/sort", fn, "chromosomes come from a HashMap iteration and are not sorted by id before being written")
     else:
         from ..astq import dominates
-        if not all(dominates(sorts[0], e.node) for e in ems):
+        key_ok = False
+        if sorts[0]["method"] in ("sort_by_key", "sort_unstable_by_key", "sort_by_cached_key") and sorts[0]["args"]:
+            from ..rules.layout import _closure_origin
+            a0 = strip(sorts[0]["args"][0])
+            key_ok = isinstance(a0, Node) and a0.k == "closure" and _closure_origin(a0) == "\u03bb.1"
+        elif sorts[0]["method"] in ("sort_by", "sort_unstable_by") and sorts[0]["args"]:
+            import re as _re
+            key_ok = _re.search(r"\|(\w+),(\w+)\| \*?\1\.1\.cmp\(&?\*?\2\.1\)", up(sorts[0]["args"][0])) is not None
+        coll = origin(fn, sorts[0]["recv"])
+        if not key_ok or ".iter().collect()" not in coll:
+            res.fail("chromTree/sort-key", sorts[0], "the (name, id) pairs must be sorted by ID (the second component) so that the table lists chromosomes in first-appearance order "
+                     "and item i has id i; sorted with `%s`" % up(sorts[0])[:80])
+        elif not all(dominates(sorts[0], e.node) for e in ems):
             res.fail("chromTree/sort-order", sorts[0], "sort must precede the first write")
         else:
             res.ok(sorts[0], "HashMap iteration is sorted (%s) before anything is written" % up(sorts[0])[:80])
